@@ -21,7 +21,7 @@
     test exactly once with one terminal status" carries over from the report object (C01Run / C01Accept) to the file.
   * What the escaping buys (`raw_text_refused_under_ascii_locale`, `raw_latin1_file_unreadable_under_utf8`): the same texts written
     RAW are refused by an ASCII locale, and what a Latin-1 locale writes raw cannot be read under UTF-8.
-  * Open finding D39 (`raw_console_text_can_be_refused`): the console backend prints names and step descriptions raw.
+  * Open finding D41 (`raw_console_text_can_be_refused`): the console backend prints names and step descriptions raw.
 
   Parameters, as in C09: `parse` (`json.loads`) with the one fact that it inverts the rendering (stream C09.json); the spelling of
   numbers and times (`Atoms`, ASCII).  Report texts are Lean `String`s (Unicode scalar values); lone surrogates are covered at the
@@ -153,7 +153,7 @@ theorem raw_latin1_file_unreadable_under_utf8 :
     latin1Codec.enc [99, 97, 102, 0xE9] = some [99, 97, 102, 0xE9] ∧ utf8Codec.dec [99, 97, 102, 0xE9] = none ∧
     (codecOf .latin1).enc (jsonEscape [99, 97, 102, 0xE9]) = (codecOf .utf8).enc (jsonEscape [99, 97, 102, 0xE9]) := by decide
 
-/-- Open finding D39 (`C01/locale/console-cannot-print-text`), the witness of stream C01.locale: the console backend prints the
+/-- Open finding D41 (`C01/locale/console-cannot-print-text`), the witness of stream C01.locale: the console backend prints the
     step description `étape` raw; under the ASCII locale the codec of the standard output refuses it (the handler raises on the
     event thread and the run stops without a report), while the JSON text of the same string is accepted. -/
 theorem raw_console_text_can_be_refused :
